@@ -112,6 +112,7 @@ def write_replay(pid, oid, payload):
 def check_property(pid, tier, seed, jobs=None):
     t_start = time.time()
     os.environ["VERIF_TIER"] = tier  # contract modules may size their variant lists by tier
+    os.environ["VERIF_PID"] = pid  # contract modules that enumerate the class graph register only for their own property
     load_all_contracts()  # callee contracts of other properties are needed at call sites
     mod = property_module(pid)
     run = Run(pid, tier, seed)
@@ -351,6 +352,7 @@ def _short(d):
 
 def do_replay(pid, path):
     """Re-run a stored replay file on the real code in this (fresh) interpreter."""
+    os.environ["VERIF_PID"] = pid
     load_all_contracts()
     mod = property_module(pid)
     payload = json.load(open(path))
